@@ -75,6 +75,7 @@ def _inline_site(caller, bi, callee):
         if d2.get("name"):
             d2["inlined_name"] = d2["name"]
             d2["name"] = None
+        d2["inl"] = True
         locs.append(d2)
     if callee.get("promoted"):
         caller.setdefault("promoted", [])
@@ -415,6 +416,67 @@ def fn_items_to_closures(doc, cand):
     return n
 
 
+def _deref_inlined_refs(caller):
+    """A helper that takes `acc: &mut f64` and does `*acc += v` leaves, after inlining, a store
+    through a temporary that holds `&mut local` of the caller: a definition of `local` that the
+    def-use machinery cannot see.  For every local introduced by inlining whose single definition
+    is a (re)borrow or a move of one, places `(*r).rest` are rewritten to the borrowed place, so
+    the store becomes a plain store to the caller's own variable (which is what the source said
+    before the helper was extracted)."""
+    locs = caller["hdr"]["locals"]
+    defs = {}
+    for blk in caller["blocks"]:
+        for st in blk["stmts"]:
+            if st["k"] == "assign" and not st["place"]["proj"]:
+                defs.setdefault(st["place"]["local"], []).append(st)
+        t = blk["term"]
+        if t["k"] == "call" and t.get("dest") and not t["dest"]["proj"]:
+            defs.setdefault(t["dest"]["local"], []).append(None)
+
+    def pointee(r, depth=0):
+        """place P with (*r) == P, or None"""
+        if depth > 8:
+            return None
+        ds = defs.get(r, [])
+        if len(ds) != 1 or ds[0] is None:
+            return None
+        rv = ds[0]["rv"]
+        if rv["k"] == "use" and rv["op"].get("k") in ("move", "copy") and not rv["op"]["place"]["proj"]:
+            s_ = rv["op"]["place"]["local"]
+            return pointee(s_, depth + 1) or {"local": s_, "proj": [{"k": "deref"}]}
+        if rv["k"] == "ref":
+            pl = rv["place"]
+            if not pl["proj"]:
+                return {"local": pl["local"], "proj": []}
+            if pl["proj"][0]["k"] == "deref":
+                inner = pointee(pl["local"], depth + 1)
+                if inner is not None:
+                    return {"local": inner["local"], "proj": copy.deepcopy(inner["proj"]) + copy.deepcopy(pl["proj"][1:])}
+            return copy.deepcopy(pl)
+        return None
+    cache = {}
+
+    def fix(o):
+        if isinstance(o, dict):
+            if "local" in o and "proj" in o and isinstance(o["proj"], list) and o["proj"] and o["proj"][0].get("k") == "deref":
+                r = o["local"]
+                if r < len(locs) and locs[r].get("inl"):
+                    if r not in cache:
+                        cache[r] = pointee(r)
+                    P = cache[r]
+                    if P is not None and not (P["local"] == r):
+                        o["proj"] = copy.deepcopy(P["proj"]) + o["proj"][1:]
+                        o["local"] = P["local"]
+            for v in o.values():
+                fix(v)
+        elif isinstance(o, list):
+            for v in o:
+                fix(v)
+    for blk in caller["blocks"]:
+        fix(blk["stmts"])
+        fix(blk["term"])
+
+
 def inline_new_helpers(doc, max_blocks=400):
     pinned = pinned_fns()
     if pinned is None:
@@ -480,6 +542,9 @@ def inline_new_helpers(doc, max_blocks=400):
                         done.append((tgt["path"], cp))
                         changed = True
                         break
+    if not os.environ.get("JBV_NO_DEREF"):
+        for pth in sorted({c for c, h in done}):
+            _deref_inlined_refs(bodies[pth])
     for pth in cand:
         bodies[pth]["inlined_away"] = True
     if not os.environ.get("JBV_NO_FNITEM"):
